@@ -1,4 +1,4 @@
-from asyncio import Task, TaskGroup, get_event_loop
+from asyncio import CancelledError, Task, TaskGroup, get_event_loop
 from collections.abc import Callable, Coroutine
 from contextvars import ContextVar, Token, copy_context
 from types import TracebackType
@@ -60,6 +60,9 @@ class TaskGroupContext:
                 exc=exc_val,
                 tb=exc_tb,
             )
+
+        except CancelledError:
+            raise  # never silence cancellation of the task waiting for the group
 
         except BaseException:
             pass  # silence TaskGroup exceptions, if there was exception already we will get it
